@@ -40,7 +40,7 @@ theorem timeout_defaulting (configured : Int) :
     plus the stored validators. -/
 theorem foreground_does_not_wait (cfg : Cfg) (t0 : Int) (req : Req) (e : Entry) (key : Str) (refs : List Ref) (i : Nat)
     (tr : List Step) (r : Result) (h : Run (handleCacheHit cfg t0 req e key refs i) tr r) (hs : spawned tr = true) :
-    ∃ f ccReq, tr = [Step.spawn (backgroundRevalidate cfg req.method (withConditional req.header e.resp.header) key e f ccReq t0)] ∧
+    ∃ f ccReq, tr = [Step.spawn (backgroundRevalidate cfg req.method (withConditional req.header e.resp.header) req.header key e f ccReq t0)] ∧
       contacted tr = false ∧ ∃ x, r = .resp x ∧ Header.values x.header sStatusHeader = [CacheStatus.stale.value] := by
   unfold handleCacheHit at h
   simp only [] at h
@@ -87,9 +87,9 @@ theorem foreground_does_not_wait (cfg : Cfg) (t0 : Int) (req : Req) (e : Entry) 
     conditional header list it was given and the configured deadline — and then only performs
     store operations (re-reading index and entry, writing back); it spawns nothing and always
     ends. -/
-theorem one_background_request (cfg : Cfg) (method : Str) (condH : Header) (key : Str) (stored : Entry)
+theorem one_background_request (cfg : Cfg) (method : Str) (condH clientH : Header) (key : Str) (stored : Entry)
     (f : Freshness) (ccReq : Directives) (start : Int) (tr : List Step) (res : Result)
-    (h : Run (backgroundRevalidate cfg method condH key stored f ccReq start) tr res) :
+    (h : Run (backgroundRevalidate cfg method condH clientH key stored f ccReq start) tr res) :
     res = .done ∧ ∃ ans tr', tr = Step.origin method condH (some cfg.swrTimeout) ans :: tr' ∧
       contacted tr' = false ∧ spawned tr' = false := by
   unfold backgroundRevalidate at h
